@@ -20,7 +20,12 @@ LEVEL = "proof"
 THEOREMS = ["Mistune.m_sound", "Mistune.spec_bounds", "Mistune.matchAt_sound", "Mistune.search_sound", "Mistune.search_none",
             "Mistune.minLen_sound", "Mistune.scan_sound", "Mistune.lineEnd_progress",
             "Mistune.blockLoop_total", "Mistune.inlineLoop_total", "Mistune.blockLoop_iterations",
-            "Mistune.allCfgs_consume", "Mistune.allCfgs_repBodies", "Mistune.namedRx_repBodies", "Mistune.no_unsupported"]
+            "Mistune.allCfgs_consume", "Mistune.allCfgs_repBodies", "Mistune.namedRx_repBodies", "Mistune.no_unsupported",
+            # the progress contract K1 PROVED for the concrete parser model, handler by handler (core handlers, the plugin handlers the model transcribes, every inner loop), by
+            # induction on the nesting budget: no loop of the block / inline model ever stalls, for every source string; the hypotheses are decidable obligations on the
+            # regenerated tables, discharged for every configuration by the kernel (allCfgs_cfgOk, allCfgs_iCfgOk)
+            "Mistune.Model.Blk.parseMethod_progress", "Mistune.Model.blockParse_no_noProgress", "Mistune.allCfgs_cfgOk", "Mistune.allCfgs_blockParse_no_noProgress",
+            "Mistune.Model.Inl.recAt_ok", "Mistune.Model.inlineParse_no_noProgress", "Mistune.Model.inlineParseEnv_no_noProgress", "Mistune.allCfgs_iCfgOk", "Mistune.allCfgs_inlineParse_no_noProgress"]
 
 BLOCK_OPEN = ["> ", "- ", "1. ", "* ", "+ ", ">! ", "> - ", "- > ", "1. > ", "> 1. ", "- - > ", ">\t", "-\t", "  - ", "   > "]
 INLINE_OPEN = [("[![", "](u)](u)"), ("![[", "](u)](u)"), ("[a ![b ", "](u)](v)"), ("*", "*"), ("**", "**"), ("_", "_"), ("[", "](u)"), ("![", "](u)"), ("<a>", "</a>"), ("[</a>", "](u)"),
